@@ -9,6 +9,7 @@ pub mod c04;
 pub mod c05;
 pub mod c06;
 pub mod c11;
+pub mod c12;
 pub mod c13;
 pub mod c15;
 pub mod c16;
@@ -63,6 +64,7 @@ simple_checks! {
     "C11" => c11,
     "C05" => c05,
     "C06" => c06,
+    "C12" => c12,
     "C13" => c13,
     "C15" => c15,
     "C17" => c17,
